@@ -59,6 +59,21 @@ CLAIMED = {
             "rank lists, non-contiguous and lazily conjugated core views, requires_grad cores), all four dtypes.",
             "Trusted: torch.equal, storage pointers, the checker's dense contraction. CPU only.",
             "DESIGN.md 4/C19"),
+    "C05": ("model-based property testing (Hypothesis): generated histories of public operations over a pool of live objects, structural invariant on every registered TT object after every step; exhaustive length<=2 enumeration in the thorough tier",
+            "Random operation histories (up to 30 steps, ~85 operation kinds incl. in-place set_core/reduce_dims and the "
+            "iterative routines with pooled optional arguments) with every TT object created anywhere registered through a "
+            "harness-side wrapper of TT.__init__; the well-formedness invariant (core dimensionality, rank chain, boundary "
+            "ranks, R/N/M/shape/is_ttm vs cores, copy semantics of the properties, full() shape) is evaluated after each "
+            "step. The thorough tier adds the complete enumeration of all length-1/2 programs over a fixed alphabet.",
+            "Trusted: the registry sees objects only while they are alive (weak references). Scope bound order<=4, sizes<=4, ranks<=3.",
+            "DESIGN.md 4/C05"),
+    "C06": ("model-based property testing (Hypothesis): the C05 history generator with before/after snapshots of every live object around each operation (value, ranks, shape, dtype), aliasing chains through views, pooled optional arguments",
+            "Same history generator; every live pool object is snapshotted before each operation and compared afterwards "
+            "(bit-identical cores, else equal dense value, and equal ranks/shape/dtype), exempting only the receiver of a "
+            "documented in-place operation; views produced by earlier steps are operands of later ones, optional "
+            "initial-guess arguments are filled from the pool.",
+            "Trusted: value-based notion of 'unchanged' as in the statement. Scope as C05.",
+            "DESIGN.md 4/C06"),
     "C17": ("differential property-based testing (Hypothesis): C11/C12 generators run through the Python and the freshly compiled C++ backend in one process, both against the dense oracle and against each other, with crash journaling",
             "The extension is rebuilt from the working tree's cpp/ whenever it changes; each generated case runs both "
             "backends, checks the C12 residual / C11 product bound for each, their mutual agreement, that C++ accepts what "
